@@ -74,7 +74,7 @@ Theorem program_run s p reg s' r c f :
   exists rf cf,
     Steps r rf /\ cur rf = Some cf /\ c_frames cf = [] /\
     c_values cf = match reg with RNone => [] | v => [cv v] end /\
-    r_nss rf = mnss (st_nss s') /\
+    world rf = (mnss (st_nss s'), st_trace s') /\
     do_iter rf = Ok (Return REmpty rf) /\
     forall fuel n x r', execute_do fuel r n = Ok (x, r') ->
       (x = REmpty /\ r' = rf) \/ (x = ROk /\ Steps r r' /\ Steps r' rf).
@@ -95,7 +95,7 @@ Proof.
   { cbn. destruct top as [|x top]; cbn in RR.
     - rewrite RR. reflexivity.
     - destruct RR as (-> & NN & _). destruct reg; try reflexivity. exfalso. apply NN. reflexivity. }
-  split; [rewrite nss_upd_cur; exact N1|]. split; [exact T|].
+  split; [rewrite world_upd_cur; exact N1|]. split; [exact T|].
   intros fuel n x r' H.
   destruct (execute_do_follows r (upd_cur r1 c4) (steps_trans _ _ _ S1 S2) fuel n x r' H) as [(f2 & n2 & _ & _ & E)|Q]; [|right; exact Q].
   destruct f2 as [|f2]; [discriminate E|]. cbn [execute_do] in E.
